@@ -175,8 +175,8 @@ def jobs(tier):
     for k in ks:
         for via in ('init', 'create_arbitrary'):
             js.append(dict(name=f'H7a:construct:{via}:k{k}', fn='h_construct', params=dict(k=k, via=via), cost=10 ** k,
-                           witness_every=1 if k < 3 else 5, budget_s=200 if tier == 'quick' else 1200))
+                           witness_every=1 if k < 3 else 5, budget_s=200 if tier == 'quick' else 600))
     for v in ('ordered', 'swapped'):
         js.append(dict(name=f'H7b:filter_and_amplifier_chain:{v}', fn='h_chain', params=dict(variant=v), cost=2000, witness_every=10,
-                       budget_s=250 if tier == 'quick' else 1500))
+                       budget_s=250 if tier == 'quick' else 600))
     return js
